@@ -79,7 +79,7 @@ func VerifC31CompatibleSet() {
 	vers := []string{"v1.0.5", "v1.2.0", "v2.0.1", "v1.2.0-rc1"}[:verifrt.Bound("setversions", 3, 4)]
 	st := NewCompatibleSet[int](8)
 	var regs []verifC31Reg
-	nops := verifrt.Bound("ops", 4, 5)
+	nops := verifrt.Bound("ops", 4, 4)
 	for i := 0; i < nops; i++ {
 		ti := verifrt.NondetChoice("type", len(types))
 		v := util.MustNewVersion(vers[verifrt.NondetChoice("version", len(vers))])
